@@ -513,6 +513,56 @@ def oracle_shared_state(ck, rng):
                          oracle="shared_model_state")
 
 
+def oracle_border_chunking(ck, rng):
+    """molecules near the faces, edges and corners of the tomogram (their windows need padding), with and without corner_safe, order 1
+    and 3: numpy tomogram, one-chunk and many-chunk dask tomograms give the same sub-volumes, averages and declared shapes"""
+    import dask
+    import dask.array as da
+    from acryo import SubtomogramLoader, Molecules
+    from scipy.spatial.transform import Rotation
+    from scipy import ndimage as ndi
+    tomo = (ndi.gaussian_filter(rng.normal(size=(20, 22, 24)), 1.0) * 10 + 50).astype(np.float32)
+    D = np.array(tomo.shape)
+    pos = [[1.5, 1.0, 2.0], [D[0] - 2.5, 10.0, 12.0], [10.0, D[1] - 1.5, D[2] - 2.0], [2.0, D[1] - 2.0, 11.5], [10.0, 11.0, 12.0], [D[0] - 2.0, D[1] - 2.5, D[2] - 1.5]]
+    mol = Molecules(np.array(pos), Rotation.random(len(pos), random_state=int(rng.integers(0, 2**31))))
+    chunkings = [tomo.shape, (10, 11, 12), (7, 5, 24), (4, 4, 4)]
+    for order in (1, 3):
+        for cs in (True, False):
+            base = None
+            for sched in ("synchronous", "threads"):
+                for ch in [None] + chunkings:
+                    img = tomo if ch is None else da.from_array(tomo, chunks=ch)
+                    ld = SubtomogramLoader(img, mol, order=order, output_shape=(6, 5, 7), corner_safe=cs)
+                    ck.oracle_count("border_chunking", 1, 1)
+                    try:
+                        with dask.config.set(scheduler=sched):
+                            lazy = ld.construct_dask()
+                            arr = np.asarray(lazy.compute())
+                            one = [ld.construct_loading_tasks()[i] for i in range(len(pos))]
+                            shapes_ok = tuple(lazy.shape) == arr.shape and all(tuple(t_.shape) == np.asarray(t_.compute()).shape for t_ in one[:3])
+                            avg = np.asarray(ld.average())
+                        got = (arr, avg)
+                        bad = []
+                        if not shapes_ok:
+                            bad.append("a lazily constructed array declares another shape than it computes to")
+                        if not np.all(np.isfinite(arr)):
+                            bad.append("non-finite voxels")
+                        if base is None:
+                            base = got
+                        else:
+                            rows = [i for i in range(len(pos)) if not np.allclose(arr[i], base[0][i], atol=1e-4, rtol=1e-5)]
+                            if rows:
+                                bad.append(f"sub-volumes {rows} differ from the synchronous numpy run (max {max(float(np.abs(arr[i] - base[0][i]).max()) for i in rows):.3g})")
+                            if not np.allclose(avg, base[1], atol=1e-4, rtol=1e-5):
+                                bad.append("average differs from the synchronous numpy run")
+                    except Exception as e:  # noqa
+                        bad = [f"raised {type(e).__name__}: {e}"]
+                    if bad:
+                        ck.violation(what=f"order {order}, corner_safe={cs}, scheduler {sched}, chunks {ch}: " + "; ".join(bad), inp={"order": order, "corner_safe": cs,
+                                     "scheduler": sched, "chunks": list(ch) if ch else None, "positions": pos}, key={"site": "border-chunking", "corner_safe": cs,
+                                     "multi_chunk": bool(ch and tuple(ch) != tomo.shape)}, oracle="border_chunking")
+
+
 def run(ck: common.Check):
     ck.design_ref = "DESIGN.md §6 C10"
     ck.trusted_base = TB
@@ -530,6 +580,7 @@ def run(ck: common.Check):
     oracle_shared_state(ck, rng)
     oracle_batch_backing(ck, np.random.default_rng(ck.seed + 101010))
     oracle_imread_and_mock(ck, np.random.default_rng(ck.seed + 10101))
+    oracle_border_chunking(ck, np.random.default_rng(ck.seed + 1001))
 
 
 def replay_file(data):
